@@ -20,7 +20,7 @@ RULE = ("reply: 1-3 sequential exchanges on one real radiusConn over loopback UD
         "coa: one real CoA listener per case (1-3 client nets incl. overlapping ones, replay window 300/10/0, optional "
         "NAS-Identifier and custom VSA mappings) receiving 1-4 CoA/Disconnect/other packets from configured and "
         "unconfigured loopback sources; request authenticator right / wrong key / zero / random, Message-Authenticator "
-        "absent / RFC 5176 / as-transmitted / garbage, Event-Timestamp absent / inside / at +-window / one past / far / zero, "
+        "absent / RFC 5176 / as-transmitted / garbage / one bit flipped, request authenticator also with one bit flipped in any octet, Event-Timestamp absent / inside / at +-window / one past / far / zero, "
         "targets of all four kinds, mutable, stripped, non-whitelisted and vendor attributes, Proxy-State, length field "
         "off by some octets, trailing octets (incl. a fake attribute 80), literal junk. auth: Provider.Authenticate "
         "against a server that answers the live request with scripted genuine/forged/flipped replies. "
@@ -221,7 +221,7 @@ def gen_coa_packet(rng, clients, win, nasid):
     known = [x for x in SOURCES if client_for(clients, x)]
     src = rng.choice(known) if known and rng.random() < 0.85 else rng.choice(SOURCES)
     key = client_for(clients, src) or K1
-    code = rng.choice([43] * 9 + [40] * 8 + [41, 1, 4, 99])
+    code = rng.choice([43] * 20 + [40] * 17 + [41, 1, 99])
     attrs = []
     # target
     good_t = [(44, b"sess-%d" % rng.randrange(50)), (8, bytes([10, 1, 2, rng.randrange(256)])), (1, b"alice"),
@@ -230,8 +230,8 @@ def gen_coa_packet(rng, clients, win, nasid):
     bad_t = [(44, b""), (8, b"\x0a\x01"), (1, b""), (168, bytes(4))]
     for _ in range(rng.choice([1, 1, 1, 1, 1, 1, 2, 2, 0])):
         attrs.append(rng.choice(good_t * 3 + bad_t))
-    if rng.random() < 0.3:
-        attrs.append((32, rng.choice([nasid or b"bng1", nasid or b"bng1", b"other", b""])))
+    if rng.random() < 0.4:
+        attrs.append((32, rng.choice([nasid or b"bng1", nasid or b"bng1", nasid or b"bng1", b"other", b"", b"bng2", b"bng", b"bng12", b"Bng1"])))
     ts = rng.choice([None, None, None, "TS+0", "TS-5", "TS+7", "TS-2", "TS-%d" % win, "TS-%d" % (win + 1), "TS+%d" % win,
                      "TS+%d" % (win + 1), "TS-100000", "TS+100000", bytes(4), b"\x00\x00\x01", "TS-%d" % max(win - 1, 0)])
     if ts is not None:
@@ -239,7 +239,12 @@ def gen_coa_packet(rng, clients, win, nasid):
     if code == 43 and rng.random() < 0.8:
         attrs.append(rng.choice([(27, struct.pack(">I", rng.choice([0, 60, 3600, 2 ** 32 - 1]))), (28, struct.pack(">I", 600)),
                                  (85, struct.pack(">I", 300)), (26, vsa(9, 1, b"policy-gold"))]))
-    if code == 43 or rng.random() < 0.15:
+    if code == 40 and rng.random() < 0.3:
+        # a Disconnect-Request must carry identification attributes only
+        attrs.append(rng.choice([(27, struct.pack(">I", 60)), (27, struct.pack(">I", 60)), (28, struct.pack(">I", 60)), (85, struct.pack(">I", 60)),
+                                 (6, struct.pack(">I", 2)), (11, b"f"), (25, b"c"), (88, b"p"), (26, vsa(9, 1, b"x")), (2, bytes(16)),
+                                 (7, struct.pack(">I", 1)), (9, bytes(4)), (30, b"called"), (97, bytes(4)), (100, b"x"), (123, bytes(4))]))
+    if code == 43 or rng.random() < 0.1:
         for _ in range(rng.choice([0, 0, 0, 1, 1, 2, 3])):
             attrs.append(rng.choice([
                 (27, struct.pack(">I", rng.choice([0, 60, 3600, 2 ** 32 - 1]))), (28, struct.pack(">I", 600)),
@@ -253,16 +258,17 @@ def gen_coa_packet(rng, clients, win, nasid):
             ]))
     for _ in range(rng.choice([0, 0, 0, 1, 2])):
         attrs.append((33, bytes(rng.randrange(256) for _ in range(rng.randrange(0, 6)))))
-    mamode = rng.choice(["none"] * 8 + ["rfc", "rfc", "rfc", "asis", "asis", "asis", "lit", "rfcwrong", "asiswrong"])
+    mamode = rng.choice(["none"] * 8 + ["rfc", "rfc", "rfc", "asis", "asis", "asis", "lit", "rfcwrong", "asiswrong", "rfcflip", "asisflip"])
     if mamode != "none":
         attrs.insert(rng.randrange(len(attrs) + 1), (80, "MA"))
         if rng.random() < 0.1:
             attrs.append((80, "MA"))
     rng.shuffle(attrs) if rng.random() < 0.3 else None
-    sign = rng.choice(["S:" + hx(key)] * 12 + ["S:" + hx(key + b"x"), "Z", "L:" + hx(bytes(rng.randrange(256) for _ in range(16))),
+    sign = rng.choice(["S:" + hx(key)] * 12 + ["X%d:%s" % (rng.randrange(16), hx(key)), "X%d:%s" % (rng.choice([0, 7, 8, 15]), hx(key)),"S:" + hx(key + b"x"), "Z", "L:" + hx(bytes(rng.randrange(256) for _ in range(16))),
                                               "S:" + hx(K2 if key != K2 else K1)])
     ma = {"none": "none", "rfc": "rfc:" + hx(key), "asis": "asis:" + hx(key), "rfcwrong": "rfc:" + hx(key + b"z"),
-          "asiswrong": "asis:" + hx(b"zz"), "lit": "lit:" + hx(bytes(rng.randrange(256) for _ in range(16)))}[mamode]
+          "asiswrong": "asis:" + hx(b"zz"), "rfcflip": "rfcflip%d:%s" % (rng.randrange(16), hx(key)),
+          "asisflip": "asisflip%d:%s" % (rng.randrange(16), hx(key)), "lit": "lit:" + hx(bytes(rng.randrange(256) for _ in range(16)))}[mamode]
     lend = rng.choice([0] * 25 + [1, -1, -3, 5])
     trail = rng.choice(["-"] * 20 + ["00", "5012" + "00" * 16, hx(bytes(rng.randrange(256) for _ in range(5)))])
     bus = rng.choice(["ok", "ok", "ok", "nf", "e0", "e401"])
@@ -278,7 +284,7 @@ def gen_coa_packet(rng, clients, win, nasid):
 def gen_coa(rng):
     clients = rng.choice(CLIENT_SETS)
     win = rng.choice([300, 300, 10, 0])
-    nasid = rng.choice([b"", b"", b"bng1"])
+    nasid = rng.choice([b"", b"bng1"])
     cfg = "coa win=%d nasid=%s maps=%s clients=%s" % (win, hx(nasid), rng.choice(MAPSETS),
                                                       ",".join("%s/%s" % (h, hx(k)) for h, k in clients))
     n = rng.choice([1, 2, 3, 4])
@@ -303,7 +309,7 @@ def gen_auth(rng):
 
 def gen_cases(rng, tier, budget):
     q = tier == "quick"
-    nr, nc, na = (260, 300, 60) if q else (4000, 5000, 600)
+    nr, nc, na = (260, 500, 60) if q else (4000, 8000, 600)
     if budget:
         nr, nc, na = budget, budget, max(10, budget // 5)
     cases = []
@@ -352,7 +358,8 @@ def classify(case, impl, model):
         return "G", "statistics or reply bytes differ while decision, events and authenticator validity agree"
     if kind == "auth":
         if _tok(impl, "got") != _tok(model, "got") or _tok(impl, "reqma") != _tok(model, "reqma"):
-            return "P", "Authenticate returned %s, model says %s" % (_tok(impl, "got"), _tok(model, "got"))
+            return "P", "Authenticate returned %s (request Message-Authenticator valid=%s), model says %s (valid=%s)" % (
+                _tok(impl, "got"), _tok(impl, "reqma"), _tok(model, "got"), _tok(model, "reqma"))
         return "G", "auth line differs"
     return "G", "unknown case kind"
 
